@@ -175,6 +175,14 @@ func (r *reflector) toModel0(v px.Value) *MV {
 		return rich()
 	}
 	if po, ok := v.(px.PuppetObject); ok {
+		if _, isType := v.(px.Type); !isType {
+			if ot, ok := vt.(px.ObjectType); ok {
+				// an INSTANCE of an Object type (attributeSlice, or the wrapper of a Go struct): only the questions
+				// are asked here (attribute list, the value each attribute holds - for a Go struct: the field -, is
+				// it the default); which of them the init hash holds is computed by the model (Model/SerStruct.v)
+				return r.instance(v, ot)
+			}
+		}
 		m := &MV{C: "VObj", Id: r.id(v), Hint: 2, Disp: safeString(v)}
 		m.Ty = r.typeImage(vt)
 		bad := false
@@ -226,6 +234,61 @@ func (r *reflector) toModel0(v px.Value) *MV {
 		return m
 	}
 	return &MV{Why: fmt.Sprintf("%T has no rich-data encoding", v)}
+}
+
+// instance reflects an object instance as VObjS: ALL attributes with their default flags and declared defaults
+func (r *reflector) instance(v px.Value, ot px.ObjectType) *MV {
+	ai := ot.AttributesInfo()
+	attrs := ai.Attributes()
+	args := make([]px.Value, len(attrs))
+	why := ""
+	func() {
+		defer func() {
+			if e := recover(); e != nil {
+				why = "an attribute of " + ot.Name() + " cannot be read"
+			}
+		}()
+		for i, a := range attrs {
+			args[i] = a.Get(v)
+		}
+	}()
+	if why != "" {
+		return &MV{Why: why}
+	}
+	m := &MV{C: "VObjS", Id: r.id(v), Req: ai.RequiredCount(), Disp: safeString(v)}
+	m.Ty = r.typeImage(ot)
+	for i, a := range args {
+		m.An = append(m.An, attrs[i].Name())
+		m.E = append(m.E, r.toModel(a))
+		m.Def = append(m.Def, attrs[i].Default(a))
+		if attrs[i].HasValue() {
+			m.Dv = append(m.Dv, r.toModel(attrs[i].Value()))
+		} else {
+			m.Dv = append(m.Dv, nil)
+		}
+	}
+	return m
+}
+
+// firstInstance finds the first object instance (VObjS) of m in pre-order and the node at the same place of r
+// (nil when r has another shape there)
+func firstInstance(m, r *MV) (*MV, *MV) {
+	if m == nil {
+		return nil, nil
+	}
+	if m.C == "VObjS" {
+		return m, r
+	}
+	for i, e := range m.E {
+		var re *MV
+		if r != nil && r.C == m.C && i < len(r.E) {
+			re = r.E[i]
+		}
+		if a, b := firstInstance(e, re); a != nil {
+			return a, b
+		}
+	}
+	return nil, nil
 }
 
 // inModel tells whether the whole term is expressible in the model
@@ -308,6 +371,12 @@ func (m *MV) g(b *strings.Builder) {
 		fmt.Fprintf(b, "(VObjT %d%%N ", m.Id)
 		m.Ty.g(b)
 		fmt.Fprintf(b, " %d%%nat ", m.Req)
+		m.attrList(b)
+		b.WriteString(" " + gStr(m.Disp) + ")")
+	case "VObjS":
+		fmt.Fprintf(b, "(VObjS %d%%N ", m.Id)
+		m.Ty.g(b)
+		b.WriteString(" ")
 		m.attrList(b)
 		b.WriteString(" " + gStr(m.Disp) + ")")
 	default:
@@ -408,7 +477,7 @@ func (m *MV) pe(b *strings.Builder) {
 			b.WriteString(")")
 		})
 		b.WriteString(")")
-	case "VObjT":
+	case "VObjT", "VObjS":
 		// what the attribute list is trimmed to is the model's business
 		b.WriteString("(@erase str ")
 		m.g(b)
